@@ -44,6 +44,42 @@ fn pool() -> Vec<(&'static str, Request)> {
     ]
 }
 
+/// one representative of every OTHER command kind `Server::notify` handles (listener activation and the stop / hand-over
+/// commands excluded: they bind ports or end the worker)
+fn pool_kinds() -> Vec<(&'static str, Request)> {
+    use sozu_command_lib::proto::command::{
+        DeactivateListener, HealthCheckConfig, MetricsConfiguration, QueryCertificatesFilters, QueryClusterByDomain, QueryMaxConnectionsPerIp, QueryMetricsOptions, RequestTcpFrontend, SetHealthCheck,
+        UpdateHttpListenerConfig,
+    };
+    let l = SocketAddress::new_v4(127, 0, 0, 1, 18080);
+    let lt = SocketAddress::new_v4(127, 0, 0, 1, 18090);
+    let ls = SocketAddress::new_v4(127, 0, 0, 1, 18443);
+    let mut v: Vec<(&'static str, Request)> = vec![
+        ("SetMaxConnectionsPerIp(5)", RequestType::SetMaxConnectionsPerIp(5).into()),
+        ("SetMaxConnectionsPerIp(0)", RequestType::SetMaxConnectionsPerIp(0).into()),
+        ("QueryMaxConnectionsPerIp", RequestType::QueryMaxConnectionsPerIp(QueryMaxConnectionsPerIp {}).into()),
+        ("QueryClusterById", RequestType::QueryClusterById("c1".into()).into()),
+        ("QueryClustersByDomain", RequestType::QueryClustersByDomain(QueryClusterByDomain { hostname: "a.example".into(), path: None }).into()),
+        ("QueryClustersHashes", RequestType::QueryClustersHashes(QueryClustersHashes {}).into()),
+        ("QueryMetrics", RequestType::QueryMetrics(QueryMetricsOptions { list: false, cluster_ids: vec![], backend_ids: vec![], metric_names: vec![], no_clusters: false, workers: false }).into()),
+        ("QueryMetrics(list)", RequestType::QueryMetrics(QueryMetricsOptions { list: true, cluster_ids: vec![], backend_ids: vec![], metric_names: vec![], no_clusters: false, workers: false }).into()),
+        ("ConfigureMetrics(disabled)", RequestType::ConfigureMetrics(MetricsConfiguration::Disabled as i32).into()),
+        ("ConfigureMetrics(enabled)", RequestType::ConfigureMetrics(MetricsConfiguration::Enabled as i32).into()),
+        ("Logging", RequestType::Logging("info".into()).into()),
+        ("QueryCertificatesFromWorkers", RequestType::QueryCertificatesFromWorkers(QueryCertificatesFilters { domain: None, fingerprint: None }).into()),
+        ("SetHealthCheck", RequestType::SetHealthCheck(SetHealthCheck { cluster_id: "c1".into(), config: HealthCheckConfig { uri: "/health".into(), interval: 10, timeout: 5, healthy_threshold: 2, unhealthy_threshold: 3, expected_status: 200 } }).into()),
+        ("RemoveHealthCheck", RequestType::RemoveHealthCheck("c1".into()).into()),
+        ("UpdateHttpListener(absent)", RequestType::UpdateHttpListener(UpdateHttpListenerConfig { address: l, front_timeout: Some(10), ..Default::default() }).into()),
+        ("DeactivateListener(inactive)", RequestType::DeactivateListener(DeactivateListener { address: l, proxy: ListenerType::Http.into(), to_scm: false }).into()),
+        ("AddTcpFrontend(no listener)", RequestType::AddTcpFrontend(RequestTcpFrontend { cluster_id: "c1".into(), address: lt, tags: BTreeMap::new() }).into()),
+        ("RemoveTcpFrontend(absent)", RequestType::RemoveTcpFrontend(RequestTcpFrontend { cluster_id: "c1".into(), address: lt, tags: BTreeMap::new() }).into()),
+    ];
+    if let Ok(c) = ListenerBuilder::new_tcp(lt).to_tcp(None) { v.push(("AddTcpListener", RequestType::AddTcpListener(c).into())); }
+    if let Ok(c) = ListenerBuilder::new_https(ls).to_tls(None) { v.push(("AddHttpsListener", RequestType::AddHttpsListener(c).into())); }
+    v.push(("RemoveListener(tcp)", RequestType::RemoveListener(RemoveListener { address: lt, proxy: ListenerType::Tcp.into() }).into()));
+    v
+}
+
 struct Answers { finals: BTreeMap<String, Vec<i32>>, }
 
 fn run(seq: &[(&'static str, Request)]) -> Option<String> {
@@ -182,6 +218,23 @@ fn main() {
             if k == usize::MAX { break; }
         }
     }
+    // every other command kind: twice in a row on a fresh worker (the second one finds the state the first one left),
+    // and once after the configuration commands it may depend on
+    if failures.is_empty() {
+        for (name, req) in pool_kinds() {
+            for prefix in [vec![], vec![p[2].clone()]] {
+                let mut seq: Vec<(&'static str, Request)> = prefix;
+                seq.push((name, req.clone()));
+                seq.push((name, req.clone()));
+                n += 1;
+                if let Some(obs) = run(&seq) {
+                    failures.push((format!("fresh worker; commands {:?}", seq.iter().map(|s| s.0).collect::<Vec<_>>()), obs));
+                    break;
+                }
+            }
+            if !failures.is_empty() { break; }
+        }
+    }
     if failures.is_empty() {
         n += 1;
         let commands = if thorough { 300 } else { 120 };
@@ -190,5 +243,5 @@ fn main() {
         }
     }
     let fjson: Vec<String> = failures.iter().map(|(i, o)| format!("{{\"input\": {i:?}, \"observed\": {o:?}}}")).collect();
-    println!("{{\"bound\": \"every sequence of {depth} commands over a pool of 8 (thorough: also 3 over all 12) configuration commands, each on a fresh in-process worker over its real command channel; no listener activated; plus one burst of 120 (thorough: 300) commands with 10 KB ids written before any answer is read, over a 16 KiB-ceiling channel\", \"states\": {n}, \"pairs\": {n}, \"nontrivial_pairs\": {n}, \"failures\": [{}]}}", fjson.join(", "));
+    println!("{{\"bound\": \"every sequence of {depth} commands over a pool of 8 (thorough: also 3 over all 12) configuration commands, each on a fresh in-process worker over its real command channel; no listener activated; plus every other command kind a worker handles (23 representatives) twice in a row, alone and after AddCluster; plus one burst of 120 (thorough: 300) commands with 10 KB ids written before any answer is read, over a 16 KiB-ceiling channel\", \"states\": {n}, \"pairs\": {n}, \"nontrivial_pairs\": {n}, \"failures\": [{}]}}", fjson.join(", "));
 }
